@@ -266,6 +266,12 @@ def ch_e2e(ctx, cases=None) -> Channel:
                 opts.append("abr=0")
             if rng.random() < .3:
                 opts.append("base=0")
+            # options that do not change what a static manifest enumerates but travel with its media URLs
+            for k, vals, p_ in (("acodec", ["ec-3", "any"], .15), ("events", ["ping"], .15), ("bugs", ["saio"], .1),
+                                ("drm", ["all", "clearkey", "playready-pro"], .25 if stream == "bbb" else 0),
+                                ("depth", ["30"], .1), ("start", ["epoch", "today"], .1), ("mup", ["4"], .1)):
+                if rng.random() < p_:
+                    opts.append(f"{k}={rng.choice(vals)}")
             cases.append((stream, f"/dash/{mode}/{stream}/{name}" + ("?" + "&".join(opts) if opts else ""), mode))
     if not ctx.thorough:
         # quick tier: a stratified sample – for every stream one $Number$ manifest, one SegmentTimeline manifest
